@@ -376,9 +376,11 @@ mod native {
                 }
             } }
         };
-        all_strings(b"ilde01-:a", 7, &mut run);      // every construct, all strings up to 7 bytes: 5 380 840 inputs
-        all_strings(b"d0:e", 11, &mut run);          // dictionaries with (repeated) empty keys, up to 11 bytes: 5 592 405 inputs
-        all_strings(b"l1:ei", 9, &mut run);          // nested lists / strings / ints, up to 9 bytes: 2 441 406 inputs
+        // thorough tier (RDEST_VERIF_TIER=thorough): one more byte for the full alphabet, two more for the others
+        let deep = std::env::var("RDEST_VERIF_TIER").map(|t| t == "thorough").unwrap_or(false);
+        all_strings(b"ilde01-:a", if deep { 8 } else { 7 }, &mut run);   // every construct: 5 380 840 inputs (thorough 48 427 561)
+        all_strings(b"d0:e", if deep { 13 } else { 11 }, &mut run);      // dictionaries with (repeated) empty keys: 5 592 405 (thorough 89 478 485)
+        all_strings(b"l1:ei", if deep { 10 } else { 9 }, &mut run);      // nested lists / strings / ints: 2 441 406 (thorough 12 207 031)
         // integers at the edges of i64 / u64 (in and out of range, signed, with leading zeros, bare and inside a list)
         for digits in ["9223372036854775806", "9223372036854775807", "9223372036854775808", "9223372036854775809",
                        "18446744073709551614", "18446744073709551615", "18446744073709551616", "99999999999999999999",
